@@ -98,7 +98,8 @@ def run(F, R, tier):
                 if val and SR.derives(args[0], UNP) and args[1] == ("lit", "crit"):
                     r2.fail((cfn, "unprotected-crit", "missing"), "validate_crit accepts a `crit` parameter in the unprotected header — path: %s" % q.describe()[:200])
             crit_present = [t_ for t_, v_ in q.variant.items() if v_ == "Some" and SR.derives(t_, PRO) and "crit" in sym.fmt(t_)]
-            if SR.variant(q, UNP) == "Some":
+            # establishment: every accepting path has looked at the unprotected header — it is absent, or it was asked for `crit` ✗
+            if SR.variant(q, UNP) != "None":
                 r2.require(any(SR.derives(args[0], UNP) and args[1] == ("lit", "crit") and val is False for args, val in has_claim_atoms(q)), (cfn, "unprotected-crit", "unchecked"),
                            "validate_crit accepts without having tested the unprotected header for `crit` — path: %s" % q.describe()[:200])
             es = elems(q)
